@@ -325,6 +325,13 @@ def run(index, rep, tier):
                             tgt, val = t, a.value
                     elif isinstance(a, ast.Expr) and isinstance(a.value, ast.Call) and call_name(a.value) == "setattr" and len(a.value.args) == 3 and norm(a.value.args[0]) in newobj:
                         tgt, val = a.value.args[0], a.value.args[2]
+                    if isinstance(a, ast.Expr) and isinstance(a.value, ast.Call) and isinstance(a.value.func, ast.Attribute) and a.value.func.attr == "update" and norm(a.value.func.value) in {n_ + ".__dict__" for n_ in newobj} | {"vars(%s)" % n_ for n_ in newobj}:
+                        nstate += 1
+                        deep = any(isinstance(c, ast.Call) and norm(c.func) == "copy.deepcopy" for c in ast.walk(a.value))
+                        from_self = any(isinstance(x, ast.Attribute) and norm(x) == "self.__dict__" for x in ast.walk(a.value)) or any(isinstance(x, ast.Call) and norm(x) == "vars(self)" for x in ast.walk(a.value))
+                        rep.check(deep or not from_self, "R12.7", f.qualname, "attributes of the source copied in bulk without deepcopy", fn_where(f, a), "%s: bulk attribute copy goes through copy.deepcopy" % f.qualname,
+                                  "%s fills the copy's __dict__ from the source's in one shallow update (`%s`): every mutable attribute - a comments list, anything a user hung on the object - is then one object shared by the source and its deep copy" % (f.qualname, norm_stmt(a)[:70]))
+                        continue
                     if tgt is None:
                         continue
                     carried = (isinstance(val, ast.Name) and val.id in raw) or _is_source_value(val)
